@@ -261,13 +261,14 @@ class Ctx:
         return str(exe), out + err
 
     # ------------------------------------------------------------------ generated files
-    def regenerate(self, script: str, rel: str, payload=None) -> bool:
+    def regenerate(self, script: str, rel: str | None = None, payload=None) -> bool:
         """Run a translator (harness/impl/<script>.py, prints {"text": ...}) against /repo and write
         coq/<rel>.  A translator that cannot translate (fail-closed) marks the run as broken."""
         r = self.impl(script, payload or {})
         if r.get('_crash') or 'text' not in r:
             self.broken('translator', script, r.get('stderr', r))
             return False
+        rel = rel or r['rel']
         if self.write_generated(rel, r['text']):
             self.log(f'regenerated {rel} (content changed)')
         self.cov.setdefault('generated', []).append(rel)
